@@ -22,6 +22,8 @@ class Engine(CallMixin):
         super().__init__(tree, registry, proto)
         self.func_stats: dict[str, dict] = {}
         self._check_exception_classes()
+        from .proto_model import install as _install_proto
+        _install_proto(self)
 
     def _check_exception_classes(self) -> None:
         m = self.tree.modules.get("pyjelly.errors")
